@@ -64,6 +64,13 @@ ROWS = [
      "Var.vars never holds frame markers: insert_* convert or reject (C02.f)", None),
     (r"^mach::var::Var::(fetch|store)/diverge:.*debug#\d$", "debug-only", LEXINV, None),
     # ---- parser -------------------------------------------------------------------------
+    (r"^lang::ast::Expression::expect::descend/assert:Overflow\(Sub,usize\)#1$", "guarded",
+     "parse.depth -= 1 on the success exit of an activation that did parse.depth += 1 on entry",
+     {"dom_incr": "depth"}),
+    (r"^<lang::ast::Ident as std::convert::From<\(&lang::token::Ident, &lang::token::Ident\)>>"
+     r"::from::\{closure#0\}/call:Index::index<str>#1$", "guarded",
+     "&param[base.len()..] where base = param.trim_end_matches(..) is a prefix of param ending "
+     "on a character boundary", {"dom_call": "::trim_end_matches"}),
     (r"^lang::ast::Statement::swap/call:Option::unwrap#\d$", "guarded",
      "two pops after the list length was checked to be 2",
      G("std::vec::Vec::<T, A>::len(", False)),
